@@ -103,6 +103,8 @@ def ev(t, m):
             return len(ev(t[2][0], m))
         if f == ('name', 'str') and len(t[2]) == 1:
             return str(ev(t[2][0], m))
+        if f == ('name', 'bool') and len(t[2]) == 1:
+            return bool(ev(t[2][0], m))
         if f == ('name', 'divmod') and len(t[2]) == 2:
             return list(divmod(ev(t[2][0], m), ev(t[2][1], m)))
         if f == ('name', 'int') and len(t[2]) == 1:
